@@ -40,7 +40,7 @@ func (s *Statement) isNull(f *File) bool {
 		return true
 	}
 	for _, c := range *s {
-		if !c.isNull(f) {
+		if c != nil && !c.isNull(f) {
 			return false
 		}
 	}
